@@ -1,6 +1,15 @@
 use std::collections::VecDeque;
+#[cfg(not(tiny_http_verif))]
 use std::sync::{Arc, Condvar, Mutex};
+#[cfg(not(tiny_http_verif))]
 use std::time::{Duration, Instant};
+#[cfg(tiny_http_verif)]
+use std::{sync::Arc, time::Duration};
+#[cfg(tiny_http_verif)]
+use tiny_http_vrt::{
+    sync::{Condvar, Mutex},
+    time::Instant,
+};
 
 enum Control<T> {
     Elem(T),
